@@ -166,6 +166,15 @@ def generate(rng, tier):
         ops.append({'op': 'runner', 'target': target_mod['relpath'], 'command': 'all', 'verbose': verbose})
     else:
         ops.append({'op': 'cli', 'argv': ['PATH:' + target_mod['relpath'], 'all', '--verbose=%d' % verbose]})
+    if rng.random() < 0.5:
+        # how the report is rendered is an option: every choice must render every failure
+        rc_cfg = {'reportchoice': rng.choice(['udiff', 'cdiff', 'ndiff', 'none', 'only_first_failure']),
+                  'colored': rng.random() < 0.5, 'partnos': rng.random() < 0.3}
+        for op in ops:
+            if op['op'] in ('run_obj', 'runner'):
+                op['config'] = dict(rc_cfg)
+            elif op['op'] == 'cli':
+                op['argv'] += ['--report=' + rc_cfg['reportchoice']]
     ops.append({'op': 'probe'})
     # ---- plan
     plan = []
@@ -289,7 +298,11 @@ def check(rec):
             awaits = any(st['form'] in W.ASYNC_FORMS for st in spec_steps)
             # (in a doctest that awaits, the fault may land in a task other than the
             # awaiting one, where asyncio legitimately parks it: only C12 is asserted there)
-            if fired and e['how'] == 'returned' and v != 'failed' and not awaits:
+            # (the doctest's own code may replace the injected exception: a 'finally:' that
+            # raises -- a peer raise firing after the injected one -- supersedes it)
+            kinds_seq = [f[0] for f in e['fired']]
+            superseded = any(k_.startswith('trace:') and 'raise' in kinds_seq[j + 1:] for j, k_ in enumerate(kinds_seq))
+            if fired and e['how'] == 'returned' and v != 'failed' and not awaits and not superseded:
                 out.append(common.viol('C09.R2', '%s: %s fired while a statement ran but the summary says %s' % (lab, fired[0][0], v),
                                        dtid=e['dtid'], k=e['k']))
         else:
